@@ -73,6 +73,9 @@ type Interp struct {
 	Params map[string]int  // vParam values for this run
 	Known  map[string]bool // active known-finding ids (vKnown)
 
+	race        *raceState
+	raceEnabled bool
+
 	FuncsSeen map[*ssa.Function]int
 	Debug     bool
 	Trace     bool
@@ -112,6 +115,7 @@ func New(prog *ssa.Program, wordBits uint8) *Interp {
 		}
 	}
 	it.registerNatives()
+	wrapSyncOnce.Do(wrapSyncIntrinsics)
 	return it
 }
 
@@ -140,8 +144,10 @@ func (it *Interp) RunInit(pkg *ssa.Package) error {
 func (it *Interp) runToCompletion(start func(g *Goroutine)) (err error) {
 	it.gs = nil
 	it.gSeq = 0
+	it.raceReset()
 	g := it.newGoroutine()
 	it.cur = g
+	it.raceFork(nil, g)
 	defer func() {
 		if r := recover(); r != nil {
 			if pa, ok := r.(pathAbort); ok {
